@@ -131,6 +131,7 @@ class PamUpdate(Contract):
             X, D0 = A['X'], A['distances']
             n, K, dist = L.len(X), L.len(A['medoid_inds']), V.ghost['dist']
             D, asg, med, coords = V['distances'], V['assignments'], V['medoid_inds'], V['medoid_coords']
+            L.hint(med[V['cid']])      # the current medoid of the cluster being updated is a member of it
             out = [('lengths', L.And(L.len(D) == n, L.len(asg) == n, L.len(med) == K, L.len(coords) == K)),
                    ('coords-are-frames', L.forall(0, K, lambda c: coords[c] == X[med[c]])),
                    ('cost-never-worse', L.rle(msq(L, D), msq(L, D0))),
@@ -139,6 +140,21 @@ class PamUpdate(Contract):
             return out
         loop_no = 2     # loop 1 is the MPI-only `for center_idx, (rank, frame_idx)` loop (dead in serial mode)
         return {1: lambda L, V: [], loop_no: inv}
+
+    @property
+    def cuts(self):
+        if self.proposals != 'given':
+            return {}
+
+        def after_costs(L, V):
+            # a proposal that coincides with another cluster's current medoid can only make distances larger
+            D, nd, med, K, cid, p = V['distances'], V['new_dist'], V['medoid_inds'], L.len(V['medoid_inds']), V['cid'], V['proposed_center_ind']
+            n = L.len(D)
+            dup = L.exists(0, K, lambda c2: L.And(c2 != cid, med[c2] == p))
+            return [dict(name='duplicate-proposal-never-lowers-a-distance', fact=L.implies(dup, L.forall(0, n, lambda f: L.And(0 <= D[f], D[f] <= nd[f])))),
+                    dict(name='duplicate-proposal-never-lowers-the-cost', fact=L.implies(dup, V['old_cost'] <= V['new_cost']),
+                         using=['cut:duplicate-proposal-never-lowers-a-distance', '_msq:mean-of-squares', '_msq:mean-of-squares#2'])]
+        return {'new_cost': after_costs}
 
     def pins(self):
         import z3
@@ -153,6 +169,116 @@ class PamUpdate(Contract):
                 'med0': lambda m: _arr(m, 'med0', min(6, sz(m)[1])), 'prop': lambda m: _arr(m, 'prop', min(6, sz(m)[1]))}
 
 
+class Iterations(Contract):
+    """n_iters sweeps: state stays consistent, cost never worse, K fixed, centres are frames (C01, C09)"""
+    key = KM + '_kmedoids_iterations'
+    modifies = ('cluster_center_inds',)
+
+    def __init__(self, proposals='random', exclude=()):
+        self.proposals, self.exclude = proposals, set(exclude)
+
+    @property
+    def local_kinds(self):
+        def rec(e, h):
+            from pyvc.engine import RecV
+            n = e.deref(h, h.env['X']).shape[0]
+            K = e.deref(h, h.env['cluster_center_inds']).shape[0]
+            ci = e.fresh_arr(h, 'res_center_indices', 'int', (K,))
+            return e.new_obj(h, RecV('ClusterResult', {'center_indices': ci, 'assignments': e.fresh_arr(h, 'res_assignments', 'int', (n,)),
+                                                        'distances': e.fresh_arr(h, 'res_distances', 'real', (n,)),
+                                                        'centers': e.fresh_arr(h, 'res_centers', 'frame', (K,))}))
+
+        def cen(e, h):
+            K = e.deref(h, h.env['cluster_center_inds']).shape[0]
+            return e.fresh_arr(h, 'centers', 'frame', (K,))
+        return {'result': rec, 'centers': cen, 'i': 'int'}
+
+    def params(self, e, st):
+        import z3
+        from pyvc.logic import Arr
+        from pyvc.engine import Metric, NONE
+        n, K = z3.Int('n'), z3.Int('K')
+        p = {'X': sym_frames(e, st, 'traj', 'n'), 'distance_method': Metric('d'), 'n_iters': z3.Int('n_iters'),
+             'cluster_center_inds': e.new_obj(st, Arr(z3.Array('med0', z3.IntSort(), z3.IntSort()), (K,), 'int', meta={'list': True})),
+             'assignments': e.new_obj(st, Arr(z3.Array('asg0', z3.IntSort(), z3.IntSort()), (n,), 'int')),
+             'distances': e.new_obj(st, Arr(z3.Array('dist0', z3.IntSort(), z3.RealSort()), (n,), 'real'))}
+        if self.proposals == 'given':
+            p['proposals'] = e.new_obj(st, Arr(z3.Array('prop', z3.IntSort(), z3.IntSort()), (z3.Int('NP'),), 'int', meta={'list': True}))
+        return p
+
+    def ghost(self, L, A):
+        return {'dist': metric(L, A['X'], fn=A['distance_method'])}, []
+
+    def requires(self, L, A, G):
+        X, D, asg, med = A['X'], A['distances'], A['assignments'], A['cluster_center_inds']
+        n, K, dist = L.len(X), L.len(med), G['dist']
+        c = [('nonempty', n >= 1), ('has-clusters', K >= 1), ('same-length', L.And(L.len(D) == n, L.len(asg) == n)),
+             ('distinct-points', distinct(L, X, dist)), ('sweeps-nonneg', A['n_iters'] >= 0)]
+        c += [('consistent:' + nm, g) for nm, g in consistent(L, n, dist, D, asg, med, K)]
+        if self.proposals == 'given':
+            P = A['proposals']
+            c += [('proposals-are-frames', L.forall(0, L.len(P), lambda j: L.between(0, P[j], n))), ('one-proposal-per-cluster', L.len(P) == K)]
+        if 'kmedoids-zero-sweeps' in self.exclude:
+            c.append(('outside-known-finding-class', A['n_iters'] >= 1))
+        return c
+
+    def result(self, e, st, args):
+        from pyvc.engine import RecV
+        n = e.deref(st, args['X']).shape[0]
+        K = e.deref(st, args['cluster_center_inds']).shape[0]
+        return e.new_obj(st, RecV('ClusterResult', {'center_indices': args['cluster_center_inds'], 'assignments': e.fresh_arr(st, 'km_assignments', 'int', (n,)),
+                                                     'distances': e.fresh_arr(st, 'km_distances', 'real', (n,)),
+                                                     'centers': e.fresh_arr(st, 'km_centers', 'frame', (K,))}))
+
+    def state_clauses(self, L, X, n, K, dist, D0, med, D, asg, coords):
+        out = [('number-of-clusters-kept', L.And(L.len(med) == K, L.len(coords) == K)),
+               ('lengths', L.And(L.len(D) == n, L.len(asg) == n)),
+               ('centers-are-frames-of-the-data', L.forall(0, K, lambda c: (coords[c] == X[med[c]]) if L.sym else L.same_array(coords[c], X[med[c]]))),
+               ('cost-never-worse', L.rle(msq(L, D), msq(L, D0)))]
+        out += [('consistent:' + nm, g) for nm, g in consistent(L, n, dist, D, asg, med, K)]
+        return out
+
+    def ensures(self, L, A, N, R, G, V):
+        X, D0 = A['X'], A['distances']
+        n, K, dist = L.len(X), L.len(A['cluster_center_inds']), G['dist']
+        return self.state_clauses(L, X, n, K, dist, D0, R.center_indices, R.distances, R.assignments, R.centers)
+
+    @property
+    def invariants(self):
+        def inv(L, V):
+            A = V.old
+            X, D0 = A['X'], A['distances']
+            n, K, dist = L.len(X), L.len(A['cluster_center_inds']), V.ghost['dist']
+            D, asg, med = V['distances'], V['assignments'], V['cluster_center_inds']
+            out = [('lengths', L.And(L.len(D) == n, L.len(asg) == n, L.len(med) == K)),
+                   ('cost-never-worse', L.rle(msq(L, D), msq(L, D0))),
+                   ('result-defined-after-first', L.implies(V['i'] >= 1, V.defined('result')))]
+            out += [('consistent:' + nm, g) for nm, g in consistent(L, n, dist, D, asg, med, K)]
+            if 'result' in V and V.raw('result') is not None:
+                r = V['result']
+                try:
+                    ok = L.And(L.same_array(r.center_indices, med), L.same_array(r.distances, D), L.same_array(r.assignments, asg),
+                               L.len(r.centers) == K, L.forall(0, K, lambda c: r.centers[c] == X[med[c]]),
+                               L.rle(msq(L, r.distances), msq(L, D0)))
+                    out.append(('result-is-the-current-state', L.implies(V.defined('result'), ok)))
+                except Exception:
+                    pass
+            return out
+        return {1: inv}
+
+    def pins(self):
+        import z3
+        return [[z3.Int('n') == a, z3.Int('K') == b, z3.Int('n_iters') == t] + ([z3.Int('NP') == b] if self.proposals == 'given' else [])
+                for a, b, t in ((1, 1, 0), (2, 1, 0), (2, 2, 1), (2, 1, 1))]
+
+    def want(self):
+        import z3
+        sz = lambda m: (m.eval(z3.Int('n'), True).as_long(), m.eval(z3.Int('K'), True).as_long())
+        return {'n': lambda m: sz(m)[0], 'K': lambda m: sz(m)[1], 'table': model_table(), 'n_iters': lambda m: m.eval(z3.Int('n_iters'), True).as_long(),
+                'dist0': lambda m: _arr(m, 'dist0', min(6, sz(m)[0]), 'real'), 'asg0': lambda m: _arr(m, 'asg0', min(6, sz(m)[0])),
+                'med0': lambda m: _arr(m, 'med0', min(6, sz(m)[1])), 'prop': lambda m: _arr(m, 'prop', min(6, sz(m)[1]))}
+
+
 def axioms(L):
     import z3
     ax = metric_axioms(L, tri=False)
@@ -163,11 +289,88 @@ def axioms(L):
     MSQ = z3.Function('MSQ', A, z3.IntSort(), z3.RealSort())
     ax.append(z3.ForAll([a, b, n], z3.Implies(z3.ForAll([i], z3.Implies(z3.And(0 <= i, i < n), z3.And(0 <= a[i], a[i] <= b[i]))),
                                                MSQ(a, n) <= MSQ(b, n)), patterns=[z3.MultiPattern(MSQ(a, n), MSQ(b, n))]))
+    # definition of the ghost: MSQ(a, n) is the mean of the squares  (links the real _msq to the ghost)
+    MEAN = z3.Function('MEAN_real', A, z3.IntSort(), z3.RealSort())
+    sq = L.func('sq', 'real', 'real')
+    i0 = z3.Int('i!0')
+    ax.append(z3.ForAll([a, n], MSQ(a, n) == MEAN(z3.Lambda([i0], sq(a[i0])), n), patterns=[MSQ(a, n)]))
     return ax
 
 
-def registry(proposals='random'):
+def registry(proposals='random', exclude=()):
     a2n = AssignToNearest()
     a2n.rowwise = ('trajectory',)
-    cs = [Msq(), Propose(), PamUpdate(proposals), a2n, FindClusterCenters()]
+    cs = [Msq(), Propose(), PamUpdate(proposals), Iterations(proposals, exclude), a2n, FindClusterCenters()]
     return {c.key: c for c in cs}
+
+
+HY = 'enspara/cluster/hybrid.py::'
+
+
+class Hybrid(Contract):
+    """k-hybrid = k-centers followed by k-medoids sweeps: consistent state, never worse in cost than the
+    k-centers solution it starts from (C01, C09)"""
+    key = HY + 'hybrid'
+
+    def __init__(self, cfg='both'):
+        self.cfg = cfg
+        from contracts.cluster import KCenters
+        self.kc = KCenters(cfg, 'cold')
+
+    def params(self, e, st):
+        import z3
+        p = self.kc.params(e, st)
+        p = {('X' if k == 'traj' else k): v for k, v in p.items() if k != 'use_triangle_inequality'}
+        p['n_iters'] = z3.Int('n_iters')
+        return p
+
+    def _kc_args(self, A):
+        B = dict(A)
+        B['traj'] = A['X']
+        B['use_triangle_inequality'] = False
+        return B
+
+    def ghost(self, L, A):
+        return {'dist': metric(L, A['X'], fn=A['distance_method'])}, []
+
+    def requires(self, L, A, G):
+        return [c for c in self.kc.requires(L, self._kc_args(A), G) if c[0] != 'shortcut-needs-a-true-metric']
+
+    def ensures(self, L, A, N, R, G, V):
+        X = A['X']
+        n, dist = L.len(X), G['dist']
+        D, asg, ctr, cen = R.distances, R.assignments, R.center_indices, R.centers
+        k = L.len(ctr)
+        out = [('lengths', L.And(L.len(D) == n, L.len(asg) == n, L.len(cen) == k)), ('at-least-one-center', k >= 1)]
+        out += [('consistent:' + nm, g) for nm, g in consistent(L, n, dist, D, asg, ctr, k)]
+        out.append(('center-is-the-frame-at-its-index', L.forall(0, k, lambda c: (cen[c] == X[ctr[c]]) if L.sym else L.same_array(cen[c], X[ctr[c]]))))
+        if L.sym:
+            kD = V['distances']        # the k-centers distances (the local is not rebound by the refinement stage)
+            out.append(('never-worse-than-kcenters', L.rle(msq(L, D), msq(L, kD))))
+            out.append(('same-number-of-clusters-as-kcenters', k == L.len(V['result'].center_indices)))
+        else:
+            from enspara.cluster import kcenters as KCm
+            r0 = KCm.kcenters(X, A['distance_method'], n_clusters=A['n_clusters'], dist_cutoff=A['dist_cutoff'])
+            out.append(('never-worse-than-kcenters', L.rle(msq(L, D), msq(L, r0.distances))))
+            out.append(('same-number-of-clusters-as-kcenters', k == len(r0.center_indices)))
+        return out
+
+    def pins(self):
+        import z3
+        return [[z3.Int('n') == a] for a in (1, 2, 3)]
+
+    def want(self):
+        w = self.kc.want()
+        import z3
+        w['n_iters'] = lambda m: m.eval(z3.Int('n_iters'), True).as_long()
+        return w
+
+
+def registry_hybrid(cfg='both', exclude=()):
+    from contracts.cluster import KCenters
+    reg = registry('random', exclude)
+    kc = KCenters(cfg, 'cold')
+    reg[kc.key] = kc
+    h = Hybrid(cfg)
+    reg[h.key] = h
+    return reg
